@@ -91,7 +91,7 @@ theorem advance_spec (ids : List Nat) (U : Nat) (hne : ids ≠ []) :
 theorem advance_total (ids : List Nat) (U : Nat) (hne : ids ≠ []) : ∃ r, advance ids U = some r := by
   obtain ⟨c, h, _⟩ := advance_spec ids U hne; exact ⟨_, h⟩
 
-/-- the empty id vector (`SubsetEnumerator(0, lo, hi)`, which the constructor's assertions admit) is NOT safe:
+/-- the empty id vector (`SubsetEnumerator(0, lo, hi)`, which the constructor's assertions accept) is NOT safe:
     `ids_.size() - 1` wraps and `ids_[current]` / `ids_.back()` read outside -/
 theorem advance_empty_oob (U : Nat) : advance [] U = none ∧ isValid [] U = none := ⟨rfl, rfl⟩
 
